@@ -1759,15 +1759,6 @@ theorem greedyRowScan_sum_one_of_transitive (A : Nat) (hA : 0 < A) (q : Nat → 
     sumTo A (greedyRowScan A q) = 1 :=
   greedyRowScan_sum_one_of_separated A hA q (tiesSeparated_of_transitive q (A - 1) H)
 
-/-- the chain row of the counterexample is, as it must be, not transitive (test on literals) -/
-example : ¬ TiesTransitive chainRow 2 := by
-  intro H
-  have := H 0 1 2 (by omega) (by omega) (by omega)
-    (by norm_num [chainRow, checkEqualGeneral, checkEqualSmall, absR, minR, AITB.Gen.equalToleranceSmall, AITB.Gen.equalToleranceGeneral])
-    (by norm_num [chainRow, checkEqualGeneral, checkEqualSmall, absR, minR, AITB.Gen.equalToleranceSmall, AITB.Gen.equalToleranceGeneral])
-  revert this
-  norm_num [chainRow, checkEqualGeneral, checkEqualSmall, absR, minR, AITB.Gen.equalToleranceSmall, AITB.Gen.equalToleranceGeneral]
-
 /-- whichever shape the source has: entries of a greedy row are 0 or 1/c for one count c ∈ [1, A] -/
 theorem greedyRow_form (A : Nat) (hA : 0 < A) (q : Nat → Rat) :
     ∃ c : Nat, 1 ≤ c ∧ c ≤ A ∧ ∀ a, greedyRow A q a = 0 ∨ greedyRow A q a = 1 / (c : Rat) := by
@@ -1809,6 +1800,16 @@ theorem greedyRowScan_chain_counterexample : sumTo 3 (greedyRowScan 3 chainRow) 
 
 /-- the same row under the repaired shape -/
 example : sumTo 3 (greedyRowMax 3 chainRow) = 1 := greedyRowMax_sum_one 3 (by norm_num) chainRow
+
+/-- the chain row of the counterexample is, as it must be, not transitive (test on literals) -/
+example : ¬ TiesTransitive chainRow 2 := by
+  intro H
+  have := H 0 1 2 (by omega) (by omega) (by omega)
+    (by norm_num [chainRow, checkEqualGeneral, checkEqualSmall, absR, minR, AITB.Gen.equalToleranceSmall, AITB.Gen.equalToleranceGeneral])
+    (by norm_num [chainRow, checkEqualGeneral, checkEqualSmall, absR, minR, AITB.Gen.equalToleranceSmall, AITB.Gen.equalToleranceGeneral])
+  revert this
+  norm_num [chainRow, checkEqualGeneral, checkEqualSmall, absR, minR, AITB.Gen.equalToleranceSmall, AITB.Gen.equalToleranceGeneral]
+
 
 /-! ### discreteness: two greedy rows that agree entrywise within equalToleranceSmall are equal -/
 
